@@ -184,12 +184,16 @@ def gen_nodes2(rng, depth, max_depth, max_sibs, budget, top=False):
             lead = []                                   # top_ok: no leading comment directly after a top-level container
         r = rng.random()
         if depth < max_depth and budget[0] > 0 and r < 0.3:
-            out.append(("b", key, None, gen_nodes2(rng, depth + 1, max_depth, max_sibs, budget), lead))
+            tgt = rng.choice([None, "TARGET", "SELF", "X1"]) if _TARGETS[0] else None
+            out.append(("b", key, tgt, gen_nodes2(rng, depth + 1, max_depth, max_sibs, budget), lead))
         elif depth < max_depth and budget[0] > 0 and r < 0.45:
             sid = rng.choice(["1", "2", "10", "INTRO", "CONTEXT"])
             out.append(("s", sid, key, rng.choice(ANNOTS), gen_nodes2(rng, depth + 1, max_depth, max_sibs, budget), lead))
         else:
             tr = rng.choice([None, None, None, "trailing note", "x -> y"])
+            if _TARGETS[0] and rng.random() < 0.3:
+                out.append(("a", key, ("holo", rng.choice(HOLO_T)), lead, tr))
+                continue
             if _ZONES[0] and rng.random() < 0.3:
                 out.append(("a", key, gen_zone_z(rng), lead, None))
                 continue
@@ -250,6 +254,21 @@ def gen_zone_z(rng):
     lines = [l for l in (rng.choice(ZONE_LINES_Z) for _ in range(rng.choice([0, 0, 1, 2, 3, 5])))
              if not l.lstrip(" ").startswith("`" * ml)]
     return ("zone", "\n".join(lines), rng.choice([None, None, "python", "json", "c++"]), "`" * ml)
+
+
+HOLO_T = ['["example"∧REQ→§SELF]', '["x"∧REQ]', '[1∧TYPE[NUMBER]]', '["a"∧ENUM[a,b]→§T]', '["d"∧REQ∧REGEX["^a$"]→§INDEXER]', '[null∧REQ]',
+          '["a\\tb"∧REQ]', '[true∧OPT→§INDEXER]', '["v"∧REGEX["^a$"]]', '[2.5∧OPT]']
+_TARGETS = [False]
+
+
+def runt(ctx, n, have_model):
+    """coret stream (Rt/TokRoundT*.v): core2 documents with targeted blocks KEY[->§T]: and holographic assignment values;
+    the extracted coret_shape_check (which also tests every holographic site against the proved class) runs on every document"""
+    _TARGETS[0] = True
+    try:
+        return run2(ctx, n, have_model, gen="coret")
+    finally:
+        _TARGETS[0] = False
 
 
 def runz(ctx, n, have_model):
@@ -321,13 +340,36 @@ def run2(ctx, n, have_model, gen="core2"):
                                  f"{gen} fragment: canonical text produced rewrite receipts")
     if have_model and docs:
         cmd = {"core3": "core3shape", "core4": "core4shape", "corez": "corezshape"}.get(gen, "core2shape")
-        res = run_driver("syn", [shape2_line(d, t).replace("core2shape", cmd, 1) for d, t in zip(docs, texts)])
+        if gen == "coret":
+            from . import parsecorr
+            parsecorr._install_holo_recorder()
+            from octave_mcp.core.parser import parse as _p
+            cmds = []
+            for d, t in zip(docs, texts):
+                try:
+                    _p(t)                      # lets the recorder see the verdict of every holographic site of this text
+                except Exception:  # noqa
+                    pass
+                nums = parsecorr.number_table(t)
+                numtab = ",".join(f"{enc_str(r)}/{k}/{enc_str(c)}" for r, (k, c) in sorted(nums.items())) or "-"
+                holos = ",".join(enc_str(r) for r, ok in parsecorr._holo_seen.items() if ok and r) or "-"
+                line = shape2_line(d, t)
+                head, rest = line.split(" ", 2)[1], line.split(" ", 2)[2]
+                cmds.append(f"coretshape {head} {numtab} {holos} {rest}")
+            res = run_driver("syn", cmds)
+        else:
+            res = run_driver("syn", [shape2_line(d, t).replace("core2shape", cmd, 1) for d, t in zip(docs, texts)])
         ctx.count(len(res))
         dom = run_driver("syn", ["domains " + astcodec.enc_doc(d) for d in docs])
         need = 40 if gen == "core3" else 24
         for d, t, r, dm in zip(docs, texts, res, dom):
             bits = int(dm) if dm.isdigit() else 0
             indom = bits & need == need
+            if gen == "coret":
+                inT = not r.startswith("X")
+                r = r.lstrip("X")
+                ctx.hist("coret_shape_check", ("coret:" if inT else "outside coret:") + {"0": "site outside the proved class", "1": "shape-ok", "2": "mismatch", "3": "LEXERR"}.get(r, r))
+                continue
             if gen == "corez":
                 indomz = r.startswith("D")
                 inz = not r.startswith("X")
